@@ -101,8 +101,71 @@ theorem C08_partial : (∀ s ∈ Gen.model.structures, recordMismatches Gen.mode
             if lacking:
                 ctx.violation(KF_KEY, f"{len(lacking)} of {len(doc['notifications'])} generated notification classes carry no method string (e.g. {lacking[0]}); requests carry it in [LSPRequest(\"...\")]",
                               {"classes": lacking[:5], "how": "python -m generator --plugin dotnet; open <Name>Notification.cs: no attribute holds the method string"})
+    problems += evolved_pass(ctx, doc)
     if problems and not ctx.violations:
         ctx.violation("C08|proof", "C08 obligations no longer check and the checker lists no mismatch", {"broken": problems}, no_input=True)
+
+
+def evolved_pass(ctx, doc):
+    """The same obligations, proved for one composite evolved metamodel of C06's family (every listed edit kind applied once):
+    the property quantifies over the committed metamodel and the evolved ones; C06 explores many more with the mismatch list."""
+    import shutil
+    import props.c07 as c07
+    problems = []
+    edoc, desc = c07.evolved_model(doc)
+    what = "the evolved metamodel [" + desc[:300] + " ...]"
+    d = common.scratch_dir("c08-evolved")
+    try:
+        mf = d / "model.json"
+        mf.write_text(json.dumps(edoc))
+        sv = common.run_py(common.VERIF / "tools/search/schema_ok.py", [str(mf)], check=False)
+        if sv.stdout.strip() != "ok":
+            raise Broken("the evolved metamodel is not schema-valid (tools/evolve.py): " + sv.stdout[:300] + sv.stderr[-300:])
+        mod, err = tables.gen_meta(ctx, [mf], modname="GenMetaE", ns="GenE")
+        if mod is None:
+            raise Broken("x_meta failed (evolved): " + err)
+        p = common.run_py(common.VERIF / "tools/extract/x_dotnet.py", ["--model", str(mf)], check=False, timeout=900)
+    finally:
+        shutil.rmtree(d, ignore_errors=True)
+    if p.returncode == 4:
+        ctx.violation("C08|plugin-fails|evolved", f"the dotnet plugin fails on {what}: " + p.stderr[-300:],
+                      {"error": p.stderr[-1500:], "model": what, "how": "python -m generator --plugin dotnet --output-dir <scratch> --model <evolved model: tools/props/c07.py evolved_model>"})
+        return problems
+    if p.returncode != 0:
+        ctx.obligation("x_dotnetE", False, "translator", p.stderr)
+        return ["x_dotnet (evolved): " + p.stderr[-800:]]
+    H = HDR.replace("GenMeta", "GenMetaE").replace("GenDotnet", "GenDotnetE")
+    text = p.stdout.replace("namespace Gen", "namespace GenE").replace("end Gen", "end GenE").replace("import GenMeta", "import GenMetaE").replace("Gen.model", "GenE.model")
+    r = tables.compile_cached(ctx, "GenDotnetE", text)
+    if not r.ok:
+        raise Broken("GenDotnetE does not elaborate: " + r.out[-2000:])
+    layer, lemma, imports = tableprop.sliced_all(H, "C08Es", "GenE.model.structures", "fun s => (recordMismatches GenE.model GenE.dotnet s).isEmpty", 25, len(edoc["structures"]), "C08E_structs_chk")
+    layer.append(("C08Erest", H + "theorem C08E_rest_chk : dotnetRest GenE.model GenE.dotnet = [] := by decide +kernel\n"))
+    final = imports + "import C08Erest\n" + H + lemma + """
+/-- C08 for the evolved metamodel (partial in the same way as C08_partial). -/
+theorem C08_evolved_partial : (∀ s ∈ GenE.model.structures, recordMismatches GenE.model GenE.dotnet s = []) ∧ dotnetRest GenE.model GenE.dotnet = [] := by
+  refine ⟨fun s hs => ?_, C08E_rest_chk⟩
+  have := List.all_eq_true.mp C08E_structs_chk s hs
+  simpa using this
+#print axioms C08_evolved_partial
+"""
+    for mn, t in layer + [("InstE", final)]:
+        common.write_module(ctx.work, mn, t)
+    res = common.lean_compile(ctx.work, [[m for m, _ in layer], ["InstE"]])
+    failed = ctx.add_lean_results(res, theorems_expected={"InstE": ["C08_evolved_partial"]})
+    ctx.corr["evaluations"] += sum(len(s["properties"]) for s in edoc["structures"]) + len(edoc["enumerations"]) + (len(edoc["requests"]) * 4 + len(edoc["notifications"]) * 2)
+    ctx.corr["distinct_nontrivial"] = ctx.corr["evaluations"]
+    if failed:
+        f = common.write_module(ctx.work, "EvalE", EVAL.replace("GenMeta", "GenMetaE").replace("GenDotnet", "GenDotnetE").replace("Gen.", "GenE."))
+        q = subprocess.run(["lean", str(f)], capture_output=True, text=True, env=common.lean_env(ctx.work), cwd=str(ctx.work))
+        mm = [(l.split("\t")[1:] + ["", "", "", ""])[:4] for l in q.stdout.splitlines() if l.startswith("MISMATCH\t")]
+        for site, aspect, exp, act in mm[:40]:
+            ctx.violation(f"C08|{site}|{aspect}|evolved", f".cs files as emitted by the dotnet plugin for {what}: {site} {aspect}: expected {exp[:160]}, found {act[:160]}",
+                          {"item": site, "aspect": aspect, "expected": exp, "found": act, "model": what,
+                           "how": "python -m generator --plugin dotnet --output-dir <scratch> --model <evolved model: tools/props/c07.py evolved_model>; open the named class"})
+        if not mm:
+            problems += [f"{r2.name}: {r2.out[-1000:]}" for r2 in failed]
+    return problems
 
 
 def replay(path):
